@@ -280,7 +280,8 @@ def run_clip(case):
         return bad("clip:inverted", "inverted limits must raise ValueError", "ValueError", "accepted")
       try:
         list(clip([Q(5), Q(-5)], Q(-2) if l is not None else None, Q(3) if h is not None else None))   # decoy
-        got = list(clip([Q(v) for v in x], *args))
+        xin = [Q(v) for v in x] if not plain else [int(v) if v.denominator == 1 else v for v in x]   # plain samples with plain limits
+        got = list(clip(xin, *args))
         again = list(clip(list(got), *args))
       except Exception as exc:
         return bad("clip:exception:" + type(exc).__name__, "clip raised", None, str(exc)[:200])
@@ -329,7 +330,8 @@ def run_zcross(case):
         if h == 0 and f == 0:
           got = list(zcross([Q(v) for v in x]))
         else:
-          got = list(zcross([Q(v) for v in x], hysteresis=conv(h), first_sign=conv(f)))
+          xin = [Q(v) for v in x] if not plain else [int(v) if v.denominator == 1 else v for v in x]
+          got = list(zcross(xin, hysteresis=conv(h), first_sign=conv(f)))
       except Exception as exc:
         return bad("zcross:exception:" + type(exc).__name__, "zcross raised", None, str(exc)[:200])
       crossings += sum(exp)
@@ -373,7 +375,10 @@ def run_unwrap(case):
      conv = Q if ptype == "Q" else (lambda v: int(v) if F(v).denominator == 1 else F(v))
      try:
       list(unwrap([Q(0), Q(9), Q(-9)], max_delta=Q(m) + 1, step=Q(s) * 3))                              # decoy
-      got = list(unwrap([Q(v) for v in x], max_delta=conv(m), step=conv(s)))
+      # "plain": the samples too are plain ints / Fractions (the exact class Q would absorb a float
+      # that the code mixes in; plain Fractions show it)
+      xin = [Q(v) for v in x] if ptype == "Q" else [int(v) if v.denominator == 1 else v for v in x]
+      got = list(unwrap(xin, max_delta=conv(m), step=conv(s)))
      except Exception as exc:
       return bad("unwrap:exception:" + type(exc).__name__, "unwrap raised (an empty input must give an "
                  "empty stream)", [], str(exc)[:200])
@@ -551,6 +556,11 @@ def run_long(case):
       want.append(acc)
     for strat in ("accumulate", "itertools", "func", "pure_python", "z"):
       got = [fq(v) for v in accumulate[strat]([Q(v) for v in x])]
+      if got == want and strat != "z":
+        # plain ints / Fractions stay exact too (the filter-based strategy starts from a float zero)
+        got = [v for v in accumulate[strat]([int(v) if v.denominator == 1 else v for v in x])]
+        if any(isinstance(v, float) for v in got):
+          got = ["float"] + got[:3]
       if got != want:
         k = next((i for i, (g, e) in enumerate(zip(got, want)) if g != e), min(len(got), len(want)))
         return bad("accumulate:value-long", "accumulate.%s is not the running sum on a long input" % strat,
